@@ -334,6 +334,9 @@ _CONT_TMPL = '''def %(name)s(%(args)s):
 #   path: 'pydict_next' (optimised dict loop over PyDict_Next), 'generic' (the container's own iterator), 'opt' (other optimised loop)
 _X = "    x = 99\n"
 _KV = "    k = 99\n    v = 99\n"
+_XS = "    x = 'c'\n"                       # str loops: a str before the loop (an int would make Cython infer a C integer)
+_KVS = "    k = 99\n    v = 'c'\n"
+_XO = "    cdef object x = 99\n"
 CONT_VARIANTS = {
     "d_t_direct": ("dict", "dict", "dict", "c", "x", "x", _X, _X, "k", "pydict_next"),
     "d_t_keys": ("dict", "dict", "dict", "c.keys()", "x", "x", _X, _X, "k", "pydict_next"),
@@ -362,14 +365,17 @@ CONT_VARIANTS = {
     "rt_t": ("rlist", "tuple", "tuple", "reversed(c)", "x", "x", _X, _X, "i", "opt"),
     "ba_t": ("list", "bytearray", "bytearray", "c", "x", "x", _X, _X, "i", "opt"),
     "rba_t": ("rlist", "bytearray", "bytearray", "reversed(c)", "x", "x", _X, _X, "i", "opt"),
-    "st_t": ("list", "str", "str", "c", "x", "x", _X, _X, "ch", "opt"),
+    "st_t": ("list", "str", "str", "c", "x", "x", _XS, _XS, "ch", "opt"),
+    "st_t_isent": ("list", "str", "str", "c", "x", "x", _X, _X, "ch", "opt"),
     "st_t_ucs4": ("list", "str", "str", "c", "x", "x", "    cdef Py_UCS4 x = 99\n", "    x = 'c'\n", "ch", "opt"),
-    "st_t_rev": ("rlist", "str", "str", "reversed(c)", "x", "x", _X, _X, "ch", "opt"),
-    "st_t_enum": ("list", "str", "str", "enumerate(c)", "k, v", "(k, v)", _KV, _KV, "ech", "opt"),
-    "st_u": ("list", "str", "", "c", "x", "x", _X, _X, "ch", "generic"),
+    "st_t_rev": ("rlist", "str", "str", "reversed(c)", "x", "x", _XS, _XS, "ch", "opt"),
+    "st_t_enum": ("list", "str", "str", "enumerate(c)", "k, v", "(k, v)", _KVS, _KVS, "ech", "opt"),
+    "st_u": ("list", "str", "", "c", "x", "x", _XS, _XS, "ch", "generic"),
     "by_t_int": ("list", "bytes", "bytes", "c", "x", "x", "    cdef int x = 99\n", _X, "by", "opt"),
     "by_t_uchar": ("list", "bytes", "bytes", "c", "x", "x", "    cdef unsigned char x = 99\n", _X, "by", "opt"),
-    "by_t_obj": ("list", "bytes", "bytes", "c", "x", "x", _X, _X, "by", "generic"),
+    "by_t_obj": ("list", "bytes", "bytes", "c", "x", "x", _XO, _X, "by", "generic"),
+    "by_t_inf": ("list", "bytes", "bytes", "c", "x", "x", _X, _X, "by", "opt"),
+    "by_u": ("list", "bytes", "", "c", "x", "x", _X, _X, "by", "generic"),
     "by_t_rev": ("rlist", "bytes", "bytes", "reversed(c)", "x", "x", "    cdef unsigned char x = 99\n", _X, "by", "opt"),
     "by_t_revint": ("rlist", "bytes", "bytes", "reversed(c)", "x", "x", "    cdef int x = 99\n", _X, "by", "opt"),
 }
